@@ -39,22 +39,26 @@ META = {
 # ---- L1 tables -------------------------------------------------------------
 def py_atoms(tier):
     if tier == "quick":
-        pv, pfv = ["3", "3.8", "3.10", "3.8.1"], ["3.8", "3.8.2", "3.10", "3.9a1"]
+        pv, pfv = ["3", "3.8", "3.10", "3.8.1", "v3.8.1", "3.8rc1"], ["3.8", "3.8.2", "3.10", "3.9a1"]
         lists = ["3.8, 3.10", "2.7,3.10"]
+        wild3 = ["3.8.0", "3.8.1"]
     else:
-        pv, pfv = ["3", "2", "3.8", "3.9", "3.10", "2.7", "3.0", "3.8.1", "3.8.0", "3.10.2"], ["3.8", "3.9", "3.8.0", "3.8.2", "3.9.0", "3.10.1", "2.7.18", "3.10", "3.9a1", "3.10.0rc1"]
+        wild3 = ["3.8.0", "3.8.1", "3.10.0"]
+        pv, pfv = ["3", "2", "3.8", "3.9", "3.10", "2.7", "3.0", "3.8.1", "3.8.0", "3.10.2", "v3.8.1", "0!3.8", "3.8.1.0", "3.8rc1", "3.8.post1", "3.8.1rc1", "3.post1"], ["3.8", "3.9", "3.8.0", "3.8.2", "3.9.0", "3.10.1", "2.7.18", "3.10", "3.9a1", "3.10.0rc1"]
         lists = ["3.8", "3.8,3.9", "3.8, 3.10", "2.7,3.10", "3.10, 3.11, 3.12"]
     out = []
     for var, vals in (("python_version", pv), ("python_full_version", pfv)):
         for op in M.CMP_OPS + ["~="]:
             for v in vals:
-                if op == "~=" and "." not in v:
+                if op == "~=" and ("." not in v or (var == "python_version" and not v.lstrip("v0!").replace(".", "").isdigit())):
                     continue
                 out.append({"var": var, "op": op, "val": v, "rev": False, "style": 0})
                 if op != "~=" and v.replace(".", "").isdigit():
                     out.append({"var": var, "op": op, "val": v, "rev": True, "style": 0})
-        for v in vals:
-            if v.count(".") <= 1 and v.replace(".", "").isdigit():
+        # wildcards: X.*, X.Y.* and, on python_version, X.Y.Z.* (printed by the library itself for
+        # python_version < "3.9.0" or python_version >= "3.9.1.0")
+        for v in vals + (wild3 if var == "python_version" else []):
+            if (v.count(".") <= 1 or v in wild3) and v.replace(".", "").isdigit():
                 out.append({"var": var, "op": "==", "val": v + ".*", "rev": False, "style": 0})
                 out.append({"var": var, "op": "!=", "val": v + ".*", "rev": False, "style": 0})
     for lst in lists:
